@@ -22,6 +22,10 @@ Python -> Lean
   (one `wrote` per `sendall`).  The callback is assumed not to raise and not to re-enter.
 * exceptions: `ValueError`, `struct.error`, `IndexError`, `UnicodeDecodeError`, bare `Exception`.
 
+* `hasFrame` (the completeness test added by the repair) is modelled twice: `hasFrame`, by pattern
+  matching on the buffer (used by the loop), and `hasFrameLit`, a statement-by-statement
+  transcription; `C18_hasFrame_literal` proves them equal.
+
 `Rfc` is an independent description of the RFC 6455 §5.2 wire format, written with arithmetic
 (`*`, `/`, `%`) and sharing nothing with the library model (which uses the shifts and masks of
 the Python source).
@@ -317,20 +321,21 @@ def writeFrame (f : LibFrame) : List Buf × Option Err :=
 /-! ## `bytes.decode("utf-8")` (strict) -/
 
 /-- well-formed UTF-8 (Unicode table 3-7); `need` continuation bytes are still expected, the next
-    of which must lie in `[lo, hi]` -/
-def utf8Ok : Nat → UInt8 → UInt8 → Buf → Bool
+    of which must lie in `[lo, hi]` (byte values as `Nat`) -/
+def utf8Ok : Nat → Nat → Nat → Buf → Bool
   | need, _, _, [] => need == 0
   | 0, _, _, b :: r =>
-    if b < 0x80 then utf8Ok 0 0x80 0xBF r
-    else if 0xC2 ≤ b && b ≤ 0xDF then utf8Ok 1 0x80 0xBF r
-    else if b == 0xE0 then utf8Ok 2 0xA0 0xBF r
-    else if (0xE1 ≤ b && b ≤ 0xEC) || b == 0xEE || b == 0xEF then utf8Ok 2 0x80 0xBF r
-    else if b == 0xED then utf8Ok 2 0x80 0x9F r
-    else if b == 0xF0 then utf8Ok 3 0x90 0xBF r
-    else if 0xF1 ≤ b && b ≤ 0xF3 then utf8Ok 3 0x80 0xBF r
-    else if b == 0xF4 then utf8Ok 3 0x80 0x8F r
+    let n := b.toNat
+    if n < 0x80 then utf8Ok 0 0x80 0xBF r
+    else if 0xC2 ≤ n ∧ n ≤ 0xDF then utf8Ok 1 0x80 0xBF r
+    else if n = 0xE0 then utf8Ok 2 0xA0 0xBF r
+    else if (0xE1 ≤ n ∧ n ≤ 0xEC) ∨ n = 0xEE ∨ n = 0xEF then utf8Ok 2 0x80 0xBF r
+    else if n = 0xED then utf8Ok 2 0x80 0x9F r
+    else if n = 0xF0 then utf8Ok 3 0x90 0xBF r
+    else if 0xF1 ≤ n ∧ n ≤ 0xF3 then utf8Ok 3 0x80 0xBF r
+    else if n = 0xF4 then utf8Ok 3 0x80 0x8F r
     else false
-  | n + 1, lo, hi, b :: r => if lo ≤ b && b ≤ hi then utf8Ok n 0x80 0xBF r else false
+  | k + 1, lo, hi, b :: r => if lo ≤ b.toNat ∧ b.toNat ≤ hi then utf8Ok k 0x80 0xBF r else false
 
 def validUtf8 (b : Buf) : Bool := utf8Ok 0 0x80 0xBF b
 
@@ -358,6 +363,41 @@ def hasFrame (buf : Buf) : Bool :=
   match frameSize buf with
   | some n => decide (n ≤ buf.length)
   | none => false
+
+/-- `buf[i:j]` -/
+def slice (buf : Buf) (i j : Nat) : Buf := (buf.drop i).take (j - i)
+
+/-- `hasFrame()` transcribed statement by statement (lengths, indexing, slices, `struct.unpack`),
+    with the exceptions indexing and unpacking could raise.  `hasFrame_literal` (Lemmas) shows that
+    it never raises and equals the pattern-matching formulation `hasFrame` used by the loop. -/
+def hasFrameLit (buf : Buf) : Except Err Bool :=
+  let size := 2
+  if buf.length < size then .ok false
+  else
+    match buf[1]? with
+    | none => .error .indexError
+    | some b1 =>
+      let length := b1.toNat &&& 0x7F
+      let r : Except Err (Option (Nat × Nat)) :=
+        if length = 126 then
+          let size := size + 2
+          if buf.length < size then .ok none
+          else match unpackH (slice buf 2 4) with
+            | .ok l => .ok (some (size, l))
+            | .error e => .error e
+        else if length = 127 then
+          let size := size + 8
+          if buf.length < size then .ok none
+          else match unpackQ (slice buf 2 10) with
+            | .ok l => .ok (some (size, l))
+            | .error e => .error e
+        else .ok (some (size, length))
+      match r with
+      | .error e => .error e
+      | .ok none => .ok false
+      | .ok (some (size, length)) =>
+        let size := if b1.toNat &&& 0x80 != 0 then size + 4 else size
+        .ok (decide (buf.length ≥ size + length))
 
 /-! ## `WebSocketTemporaryHandler` -/
 
